@@ -195,24 +195,32 @@ def run_soft_update(case, ctx):
     site = f"C08/soft_update/{algo}"
     try:
         agent = ag.build(spec, hp_config=ag.make_hp_config(algo))
-        pre = case["prefix"]
-        if pre[0] == "clone":
-            agent = agent.clone()
-        elif pre[0] == "mutate":
-            agent = hist.mutate(agent, pre[1], pre[2])
-        elif pre[0] == "checkpoint":
-            d = tempfile.mkdtemp(prefix="vpc08_")
-            try:
-                path = os.path.join(d, "a.pt")
-                agent.save_checkpoint(path)
-                agent = type(agent).load(path)
-            finally:
-                import shutil
+        pres = case["prefix"] if case["prefix"] and isinstance(case["prefix"][0], list) else [case["prefix"]]
+        for pre in pres:
+            if pre[0] == "clone":
+                agent = agent.clone()
+            elif pre[0] == "mutate":
+                agent = hist.mutate(agent, pre[1], pre[2])
+            elif pre[0] == "checkpoint":
+                d = tempfile.mkdtemp(prefix="vpc08_")
+                try:
+                    path = os.path.join(d, "a.pt")
+                    agent.save_checkpoint(path)
+                    if len(pre) > 1 and pre[1]:
+                        fresh = ag.build(dict(spec, seed=spec["seed"] + 1), hp_config=ag.make_hp_config(algo))
+                        fresh.load_checkpoint(path)
+                        agent = fresh
+                    else:
+                        agent = type(agent).load(path)
+                finally:
+                    import shutil
 
-                shutil.rmtree(d, ignore_errors=True)
-        elif pre[0] == "learn":
-            ag.seed_all(pre[1])
-            ag.learn_once(agent, spec, pre[1])
+                    shutil.rmtree(d, ignore_errors=True)
+            elif pre[0] == "learn":
+                for i in range(2):
+                    ag.seed_all(pre[1] + i)
+                    ag.learn_once(agent, spec, pre[1] + i)
+        pre = ["+".join(p[0] for p in pres)]
     except Exception as e:
         ctx.label(f"setup-failed:{type(e).__name__}")
         return
@@ -259,10 +267,10 @@ def run_soft_update(case, ctx):
             if policy_step and online_moved:
                 moved_any = True
     ctx.label(f"algo={algo}")
-    ctx.label(f"prefix={pre[0]}" + (f":{pre[1]}" if pre[0] == "mutate" else ""))
+    ctx.label(f"prefix={pre[0]}")
     ctx.label(f"tau={tau}")
     if moved_any:
-        ctx.nontrivial({"a": algo, "o": spec.get("obs"), "p": pre[:2], "t": case["tau"], "s": case["steps"], "pf": case["policy_freq"]})
+        ctx.nontrivial({"a": algo, "o": spec.get("obs"), "p": pre[0], "t": case["tau"], "s": case["steps"], "pf": case["policy_freq"]})
 
 
 def run_loss(case, ctx):
@@ -355,10 +363,11 @@ def masking_strategy(draw, tier):
 
 @st.composite
 def soft_strategy(draw, tier):
-    prefix = draw(st.one_of(st.tuples(st.just("none")), st.tuples(st.just("clone")), st.tuples(st.just("checkpoint")),
-                            st.tuples(st.just("learn"), st.integers(0, 99)),
-                            st.tuples(st.just("mutate"), st.sampled_from(hist.MUT_KINDS), st.integers(0, 999))))
-    return {"spec": draw(spec_strategy(LEARNERS)), "prefix": list(prefix), "tau": draw(st.integers(0, 3)),
+    one = st.one_of(st.tuples(st.just("none")), st.tuples(st.just("clone")), st.tuples(st.just("checkpoint"), st.integers(0, 1)),
+                    st.tuples(st.just("learn"), st.integers(0, 99)), st.tuples(st.just("learn"), st.integers(0, 99)),
+                    st.tuples(st.just("mutate"), st.sampled_from(hist.MUT_KINDS), st.integers(0, 999)))
+    prefix = [list(p) for p in draw(st.lists(one, min_size=1, max_size=3))]
+    return {"spec": draw(spec_strategy(LEARNERS)), "prefix": prefix, "tau": draw(st.integers(0, 3)),
             "policy_freq": draw(st.integers(1, 3)), "steps": draw(st.integers(1, 4)),
             "pseed": draw(st.integers(0, 999)), "bseed": draw(st.integers(0, 999)), "lseed": draw(st.integers(0, 999))}
 
